@@ -25,7 +25,15 @@ from vc2_conformance.codec_features import CodecFeatures  # noqa: E402
 from vc2_conformance.pseudocode.video_parameters import set_source_defaults  # noqa: E402
 from vc2_conformance.encoder import make_sequence  # noqa: E402
 from vc2_conformance.encoder.exceptions import UnsatisfiableCodecFeaturesError  # noqa: E402
-from vc2_conformance.bitstream import Stream, autofill_and_serialise_stream  # noqa: E402
+from vc2_conformance.bitstream import (  # noqa: E402
+    Stream,
+    DataUnit,
+    ParseInfo,
+    Padding,
+    AuxiliaryData,
+    autofill_and_serialise_stream,
+)
+from vc2_data_tables import ParseCodes  # noqa: E402
 
 HSUB = {0: 1, 1: 2, 2: 2}
 VSUB = {0: 1, 1: 1, 2: 2}
@@ -95,6 +103,13 @@ def random_config(rng, max_w=16, max_h=8):
         first_pic_num=rng.choice([None, 0, 0, 2, 1000, (1 << 32) - 2, (1 << 32) - 1]),
         nseq=rng.choice([1, 1, 1, 2]),
     )
+    if rng.random() < 0.3:
+        cfg["extras"] = [
+            [rng.randrange(1, 6), rng.choice(["pad", "aux"]), rng.choice([0, 0, 1, 2, 5, 13, 20]), rng.randrange(256)]
+            for _ in range(rng.choice([1, 1, 2, 3]))
+        ]
+    else:
+        cfg["extras"] = None
     if pcm == 1:
         # whole number of frames; first field of a frame has an even number
         cfg["npics"] = 2 * rng.choice([1, 1, 2])
@@ -214,7 +229,17 @@ def encode_sequences(cfg):
     cf = build_codec_features(cfg)
     seqs = []
     for s in range(cfg.get("nseq", 1)):
-        seqs.append(make_sequence(cf, make_pictures(cfg, s)))
+        seq = make_sequence(cf, make_pictures(cfg, s))
+        for pos, kind, n, fill in cfg.get("extras") or []:
+            units = seq["data_units"]
+            at = max(1, min(pos, len(units) - 1))
+            payload = bytes((fill + i * 37) & 0xFF for i in range(n))
+            if kind == "pad":
+                du = DataUnit(parse_info=ParseInfo(parse_code=ParseCodes.padding_data), padding=Padding(bytes=payload))
+            else:
+                du = DataUnit(parse_info=ParseInfo(parse_code=ParseCodes.auxiliary_data), auxiliary_data=AuxiliaryData(bytes=payload))
+            units.insert(at, du)
+        seqs.append(seq)
     return seqs
 
 
@@ -263,7 +288,7 @@ def minimal_config():
     return OrderedDict(
         profile=3, level=0, pcm=0, w=8, h=4, cdf=0, luma_exc=255, luma_off=0, cd_exc=255, cd_off=128,
         wavelet=4, wavelet_ho=4, depth=1, depth_ho=0, sx=2, sy=1, frag=0, lossless=False, picture_bytes=24,
-        qm=None, npics=1, pic_kind="noise", pic_seed=1, first_pic_num=None, nseq=1,
+        qm=None, npics=1, pic_kind="noise", pic_seed=1, first_pic_num=None, nseq=1, extras=None,
     )
 
 
